@@ -394,6 +394,19 @@ fn boxed_mul_case(max: usize) -> impl Fn(&mut Tape, &mut Case) -> CaseResult {
         let mut wr = Wrapping(a.clone());
         wr *= &Wrapping(b.clone());
         veq!(bl(&wr.0), want_lo, "Wrapping<BoxedUint> *= &");
+        // the four generic operator forms of the wrapper (src/wrapping.rs, through WrappingMul):
+        // "wrapping to the width of `self`", i.e. of the left operand, also for unequal precisions
+        let (wa, wb) = (Wrapping(a.clone()), Wrapping(b.clone()));
+        let wforms: [(&str, Box<dyn Fn() -> Wrapping<BoxedUint>>); 4] = [
+            ("Wrapping<BoxedUint> * Wrapping<BoxedUint>", Box::new(|| wa.clone() * wb.clone())),
+            ("Wrapping<BoxedUint> * &Wrapping<BoxedUint>", Box::new(|| wa.clone() * &wb)),
+            ("&Wrapping<BoxedUint> * Wrapping<BoxedUint>", Box::new(|| &wa * wb.clone())),
+            ("&Wrapping<BoxedUint> * &Wrapping<BoxedUint>", Box::new(|| &wa * &wb)),
+        ];
+        for (name, f) in wforms.iter() {
+            let v = total(name, || f())?;
+            veq!(bl(&v.0), want_lo, "{name} ({l}x{r} limbs)");
+        }
         Ok(())
     }
 }
